@@ -1253,7 +1253,8 @@ class Interp:
         self._pending_native: List[ast.ClassDef] = []
 
     # ---- setup ------------------------------------------------------------------------------------------------
-    STDLIB_OK = ("functools", "itertools", "contextlib", "collections", "collections.abc", "string", "json", "uuid", "typing", "operator", "math", "abc", "enum", "dataclasses")
+    STDLIB_OK = ("functools", "itertools", "contextlib", "collections", "collections.abc", "string", "json", "uuid", "typing", "operator", "math", "abc", "enum",
+                 "dataclasses", "io", "re", "types", "copy", "heapq", "bisect")
 
     def _lazy_global(self, name):
         """A module-level name of a loaded module that was not bound eagerly: a table / constant (evaluated now, in module
@@ -1818,3 +1819,18 @@ def freeze(v):
     if isinstance(v, (str, int, float, bool, type(None), bytes)):
         return v
     return repr(v)
+
+
+def no_crash(what, fn, *args):
+    """Run one rule group; an unexpected exception of the checker itself (an unforeseen shape of the code under analysis) becomes a
+    section-confined AnalysisError - never a crash of the run, never a verdict."""
+    try:
+        return fn(*args)
+    except (AnalysisError, Nonterminating):
+        raise
+    except RecursionError:
+        raise AnalysisError(f"{what}: recursion limit reached while analysing")
+    except Exception as e:   # noqa: B902
+        import traceback
+        where = traceback.extract_tb(e.__traceback__)[-1]
+        raise AnalysisError(f"{what}: shape not handled by the analyser ({type(e).__name__}: {e} at {where.name}:{where.lineno})")
